@@ -67,8 +67,9 @@ func (e *env) newAppHist(r *rand.Rand) *appHist {
 	h := &appHist{app: newApp(), pend: map[sn]*appTx{}, premise: true, feats: map[string]bool{}}
 	mp, ok := h.app.Mempool().(*palomamempool.PriorityNonceMempool[int64])
 	if !ok {
-		e.run.Violate("C19:app-mempool-type", fmt.Sprintf("the application's mempool is %T, not app/mempool.PriorityNonceMempool[int64]", h.app.Mempool()), nil)
-		panic("unexpected mempool type")
+		e.run.Violate("C19:app-mempool-type", fmt.Sprintf("the application's mempool (BaseApp.Mempool(), where CheckTx inserts) is %T, not app/mempool.PriorityNonceMempool[int64]", h.app.Mempool()),
+			map[string]any{"app": "app.New(...).Mempool()"})
+		return nil
 	}
 	h.mp = mp
 	pv := mock.NewPV()
@@ -210,7 +211,7 @@ func (h *appHist) after2(e *env, term string, entry any, check bool) {
 }
 
 func (h *appHist) countCheck(e *env) {
-	if cnt := h.mp.CountTx(); h.premise && cnt != len(h.pend) {
+	if cnt := h.mp.CountTx(); cnt != len(h.pend) {
 		e.run.Violate("C19:count-differs-from-pending", fmt.Sprintf("application pool: CountTx()=%d but %d admitted transactions are pending", cnt, len(h.pend)),
 			map[string]any{"app_history": h.log})
 	}
@@ -321,7 +322,7 @@ func (h *appHist) prepare(e *env) [][]byte {
 	if h.premise && consecutive {
 		// every pending transaction continues its sender's committed sequence: nothing is skipped or removed,
 		// the proposal IS the Select order and the whole property applies to it
-		oracleSN(e, out, h.pendPrio(), map[string]any{"app_history": append(append([]any{}, h.log...), entry)})
+		oracleSN(e, out, h.pendPrio(), map[string]any{"app_history": append(append([]any{}, h.log...), entry)}, true)
 		h.feats["proposal-checked-by-oracle"] = true
 	}
 	e.run.Count("app-op", "prepare")
@@ -391,8 +392,10 @@ func (h *appHist) selectObs(e *env, resync bool) []sn {
 		if panicked {
 			e.run.Violate("C19:select-panics", "Select/Next panicked on the application's pool", map[string]any{"app_history": append(append([]any{}, h.log...), entry)})
 		} else {
-			oracleSN(e, out, h.pendPrio(), map[string]any{"app_history": append(append([]any{}, h.log...), entry)})
+			oracleSN(e, out, h.pendPrio(), map[string]any{"app_history": append(append([]any{}, h.log...), entry)}, true)
 		}
+	} else if !panicked && !resync {
+		oracleSN(e, out, h.pendPrio(), map[string]any{"app_history": append(append([]any{}, h.log...), entry)}, false)
 	}
 	e.run.Count("app-op", "select")
 	h.after2(e, fmt.Sprintf("C19.PSelect %s", snTerm(out)), entry, !resync)
@@ -462,6 +465,9 @@ func (h *appHist) finish(e *env) {
 func (e *env) genAppHistory() {
 	r := e.run.Rng
 	h := e.newAppHist(r)
+	if h == nil {
+		return
+	}
 	h.disciplin = r.Intn(3) != 0
 	var all []*appTx // every transaction ever admitted (CometBFT's view, for re-checks of removed ones too)
 	nops := 6 + r.Intn(14)
@@ -528,4 +534,57 @@ func (e *env) genAppHistory() {
 	}
 	h.selectObs(e, false)
 	h.finish(e)
+}
+
+// Scripted application histories, run once per check (each on a fresh application):
+//  A: a pending transaction that is NOT re-checked after a Commit — the check state falls back to its sequence number
+//     and a second transaction with the same (sender, sequence) is admitted (theorem admission_without_recheck_refuted);
+//  B: the same with the re-check — the duplicate is refused (theorem admission_gives_unique_sender_nonce);
+//  C: the pool keys a transaction by its FIRST signer: a two-signer validator-set transaction is selected before the
+//     ordinary transaction that carries its second signer's previous sequence number; the SDK proposal handler's
+//     verification of it fails (second signer's sequence is ahead) and the handler removes it from the pool.
+func (e *env) appWitnesses() {
+	r := rand.New(rand.NewSource(19))
+	for _, script := range []string{"A", "B", "C"} {
+		h := e.newAppHist(r)
+		if h == nil {
+			return
+		}
+		h.disciplin = script == "B"
+		n0, n1 := h.next[0], h.next[1]
+		switch script {
+		case "A", "B":
+			t0 := h.check(e, 0, []sn{{0, n0}})
+			t1 := h.check(e, 0, []sn{{0, n0 + 1}})
+			if t0 == nil || t1 == nil {
+				panic("witness: well-sequenced transactions were not admitted")
+			}
+			h.block(e, []*appTx{t0})
+			if script == "B" {
+				h.recheck(e, t1)
+			}
+			dup := h.check(e, 1, []sn{{0, n0 + 1}}) // another transaction with the pending (sender, sequence)
+			e.run.Count("app-witness", fmt.Sprintf("%s: duplicate admitted=%v", script, dup != nil))
+			if (dup != nil) != (script == "A") {
+				e.run.Violate("C19:admission-witness", fmt.Sprintf("script %s: a second transaction with a pending (sender, sequence) was admitted=%v", script, dup != nil),
+					map[string]any{"app_history": h.log})
+			}
+			h.selectObs(e, false)
+			if script == "A" {
+				h.recheck(e, t1) // CometBFT re-checks the OLD one later: it fails and baseapp removes the pool entry — the new transaction's
+				h.selectObs(e, false)
+			}
+		case "C":
+			u := h.check(e, 0, []sn{{1, n1}})
+			a := h.check(e, 3, []sn{{0, n0}, {1, n1 + 1}})
+			if u == nil || a == nil {
+				panic("witness: well-sequenced transactions were not admitted")
+			}
+			h.selectObs(e, false)
+			prop := h.decodeKeys(e, h.prepare(e))
+			e.run.Count("app-witness", fmt.Sprintf("C: proposal %v, pool after it %d", prop, h.mp.CountTx()))
+		}
+		h.feats["witness-"+script] = true
+		h.finish(e)
+	}
 }
